@@ -716,6 +716,13 @@ impl MqttClientImpl {
                 }
 
                 debug!("Updating desired state to Stopped");
+                let mut options = options;
+                if options.disconnect.is_some() && !is_connection_established(self.protocol_state.state()) {
+                    // no connection is established: the DISCONNECT has just been failed by the protocol state
+                    // and will never be written, so there is nothing to wait for before stopping
+                    options.disconnect = None;
+                }
+
                 self.desired_stop_options = Some(options);
                 self.apply_error(GneissError::new_user_initiated_disconnect());
                 self.desired_state = ClientImplState::Stopped;
